@@ -21,6 +21,8 @@ import (
 // element that has attributes itself — from every position of the cursor. The outcome (returned bool, new cursor)
 // must equal the XPath data-model reference: the child and sibling axes never land on an attribute, the attribute
 // axis only lands on attributes, first/previous/next respect document order among non-attribute siblings.
+// Calls to repository helpers (the navigator's own helper methods, package functions over nodes) are interpreted by
+// inlining them with their parameters bound, to depth c11navMaxInline; any other call is outside the model (undecided).
 //
 // This added rule came out of seed C11-1 (MoveToFirst rewritten as a jump to Parent.FirstChild), which the original
 // rule set (representation invariant only) could not see.
@@ -166,11 +168,12 @@ func (w *c11navWorld) ref(method string, cur int) (bool, int) {
 }
 
 type c11navVal struct {
-	kind  int // 0 unknown, 1 nil, 2 node, 3 addr(link of node), 4 bool, 5 int, 6 nav ptr, 7 addr(nav field), 8 addr(node Type), 9 opaque addr
+	kind  int // 0 unknown, 1 nil, 2 node, 3 addr(link of node), 4 bool, 5 int, 6 nav ptr, 7 addr(nav field), 8 addr(node Type), 9 opaque addr, 10 tuple
 	obj   int
 	field int
 	b     bool
 	i     int64
+	tuple []c11navVal // kind 10: results of an interpreted call with several results
 }
 
 type c11navInterp struct {
@@ -185,7 +188,13 @@ type c11navInterp struct {
 	navCur   int
 	navRoot  int
 	steps    int
+	// typeOverride, if set, is the NodeType constant every load of Node.Type yields (used to drive the navigator's
+	// NodeType method with each declared constant, including ones the model trees have no node for).
+	typeOverride *int64
 }
+
+// c11navMaxInline bounds the depth to which calls to repository helpers are interpreted.
+const c11navMaxInline = 4
 
 type c11navErr struct{ msg string }
 
@@ -219,9 +228,39 @@ func (it *c11navInterp) nodeVal(i int) c11navVal {
 	return c11navVal{kind: 2, obj: i}
 }
 
-// run returns the values of the Return.
+// run interprets a navigator method (receiver = the navigator) and returns the values of the Return.
 func (it *c11navInterp) run(fn *ssa.Function) []c11navVal {
-	env := map[ssa.Value]c11navVal{fn.Params[0]: {kind: 6}}
+	return it.call(fn, []c11navVal{{kind: 6}}, 0)
+}
+
+// inlinable: a call the interpreter executes itself - a statically resolved repository function with a body (the
+// navigator's own helper methods, package helpers over nodes), no closure, within the depth bound.
+func (it *c11navInterp) inlinable(ci ssa.CallInstruction, depth int) *ssa.Function {
+	if _, isCall := ci.(*ssa.Call); !isCall {
+		return nil
+	}
+	cc := ci.Common()
+	if cc.IsInvoke() {
+		return nil
+	}
+	g := cc.StaticCallee()
+	if g == nil || len(g.Blocks) == 0 || len(g.FreeVars) > 0 || g.Signature.Variadic() || depth >= c11navMaxInline {
+		return nil
+	}
+	if !core.InRepo(core.FuncPkg(g)) || len(cc.Args) != len(g.Params) {
+		return nil
+	}
+	return g
+}
+
+// call interprets fn with its parameters bound to args and returns the values of the Return.
+func (it *c11navInterp) call(fn *ssa.Function, args []c11navVal, depth int) []c11navVal {
+	env := map[ssa.Value]c11navVal{}
+	for i, p := range fn.Params {
+		if i < len(args) {
+			env[p] = args[i]
+		}
+	}
 	b := fn.Blocks[0]
 	var prev *ssa.BasicBlock
 	for {
@@ -273,6 +312,10 @@ func (it *c11navInterp) run(fn *ssa.Function) []c11navVal {
 					case 3:
 						env[x] = it.nodeVal(it.w.nodes[a.obj].links[a.field])
 					case 8:
+						if it.typeOverride != nil {
+							env[x] = c11navVal{kind: 5, i: *it.typeOverride}
+							break
+						}
 						for cv, mt := range it.typeVals {
 							if mt == it.w.nodes[a.obj].typ {
 								env[x] = c11navVal{kind: 5, i: cv}
@@ -351,8 +394,31 @@ func (it *c11navInterp) run(fn *ssa.Function) []c11navVal {
 				return out
 			case *ssa.Panic:
 				it.fail("panic reached")
+			case *ssa.Extract:
+				if t := it.eval(env, x.Tuple); t.kind == 10 && x.Index < len(t.tuple) {
+					env[x] = t.tuple[x.Index]
+				} else {
+					env[x] = c11navVal{}
+				}
 			case ssa.CallInstruction:
-				it.fail("call to %s inside a movement method is outside the model", x.Common().String())
+				g := it.inlinable(x, depth)
+				if g == nil {
+					it.fail("call to %s inside a movement method is outside the model", x.Common().String())
+				}
+				var as []c11navVal
+				for _, a := range x.Common().Args {
+					as = append(as, it.eval(env, a))
+				}
+				res := it.call(g, as, depth+1)
+				if v := x.Value(); v != nil {
+					switch len(res) {
+					case 0:
+					case 1:
+						env[v] = res[0]
+					default:
+						env[v] = c11navVal{kind: 10, tuple: res}
+					}
+				}
 			case *ssa.Convert, *ssa.ChangeType:
 				var op ssa.Value
 				if cv, ok := x.(*ssa.Convert); ok {
@@ -374,33 +440,31 @@ func (it *c11navInterp) run(fn *ssa.Function) []c11navVal {
 	}
 }
 
-func c11NavModel(c *core.Ctx) {
+// c11navPrepare resolves the roles the interpreter needs: the single xpath.NodeNavigator implementation of package idr,
+// the node's link fields and Type field, the navigator's cursor and root fields, the four NodeType constants.
+func c11navPrepare(c *core.Ctx) (it0 c11navInterp, idrPkg *types.Package, navT *types.Named, role, why string) {
 	c.SSA()
 	p := c.Pkg("idr")
 	if p == nil {
-		c.Unresolved("R11d", "package idr", "not loaded")
-		return
+		return it0, nil, nil, "package idr", "not loaded"
 	}
 	xp := c.AnyPkg("github.com/antchfx/xpath")
 	if xp == nil {
-		c.Unresolved("R11d", "xpath package", "not loaded")
-		return
+		return it0, nil, nil, "xpath package", "not loaded"
 	}
 	navI := lookupIface(xp.Types, "NodeNavigator")
 	impls := implementersIn(p.Types, navI)
 	if len(impls) != 1 {
-		c.Unresolved("R11d", "navigator implementation", fmt.Sprintf("expected one implementation of xpath.NodeNavigator in package idr, found %d", len(impls)))
-		return
+		return it0, nil, nil, "navigator implementation", fmt.Sprintf("expected one implementation of xpath.NodeNavigator in package idr, found %d", len(impls))
 	}
-	navT := core.NamedOf(impls[0])
+	navT = core.NamedOf(impls[0])
 	nodeT := p.Types.Scope().Lookup("Node").Type().(*types.Named)
 	nodeSt := nodeT.Underlying().(*types.Struct)
 	navSt, ok := navT.Underlying().(*types.Struct)
 	if !ok {
-		c.Unresolved("R11d", "navigator struct", "not a struct")
-		return
+		return it0, nil, nil, "navigator struct", "not a struct"
 	}
-	it0 := c11navInterp{nodeT: nodeT, navT: navT, linkIdx: map[int]int{}, typeIdx: -1, curIdx: -1, rootIdx: -1, typeVals: map[int64]int{}}
+	it0 = c11navInterp{nodeT: nodeT, navT: navT, linkIdx: map[int]int{}, typeIdx: -1, curIdx: -1, rootIdx: -1, typeVals: map[int64]int{}}
 	byName := map[string]int{"Parent": lParent, "FirstChild": lFirst, "LastChild": lLast, "PrevSibling": lPrev, "NextSibling": lNext}
 	for i := 0; i < nodeSt.NumFields(); i++ {
 		f := nodeSt.Field(i)
@@ -438,12 +502,58 @@ func c11NavModel(c *core.Ctx) {
 		}
 	}
 	if len(it0.linkIdx) != nLinks || it0.typeIdx < 0 || it0.curIdx < 0 || it0.rootIdx < 0 || len(it0.typeVals) != 4 {
-		c.Unresolved("R11d", "navigator/node field roles", "could not map link fields, Type, cursor and root fields or the four NodeType constants")
+		return it0, nil, nil, "navigator/node field roles", "could not map link fields, Type, cursor and root fields or the four NodeType constants"
+	}
+	return it0, p.Types, navT, "", ""
+}
+
+// c11navTry runs fn on the interpreter and converts the interpreter's own failures into an error.
+func c11navTry(it *c11navInterp, fn *ssa.Function) (res []c11navVal, err error) {
+	defer func() {
+		if r := recover(); r != nil {
+			if ne, ok := r.(c11navErr); ok {
+				err = ne
+				return
+			}
+			panic(r)
+		}
+	}()
+	return it.run(fn), nil
+}
+
+// c11navNodeTypeReturns drives the navigator's NodeType method with the cursor on a node whose Type is the constant k:
+// decided=false if the interpreter cannot follow the method; otherwise returns=true iff the method returns a value
+// (rather than reaching its panic).
+func c11navNodeTypeReturns(c *core.Ctx, fn *ssa.Function, k int64) (returns, decided bool, why string) {
+	it0, _, _, role, w := c11navPrepare(c)
+	if role != "" {
+		return false, false, role + ": " + w
+	}
+	world := c11navBuild(0, 1)
+	it := it0
+	it.w, it.navCur, it.navRoot, it.steps, it.typeOverride = world, 1, 0, 0, &k
+	res, err := c11navTry(&it, fn)
+	switch {
+	case err == nil:
+		if len(res) == 1 && res[0].kind == 5 {
+			return true, true, ""
+		}
+		return false, false, "result of NodeType is not a decidable constant"
+	case containsStr(err.Error(), "panic reached"):
+		return false, true, err.Error()
+	}
+	return false, false, err.Error()
+}
+
+func c11NavModel(c *core.Ctx) {
+	it0, idrTypes, navT, role, why := c11navPrepare(c)
+	if role != "" {
+		c.Unresolved("R11d", role, why)
 		return
 	}
 	methods := []string{"MoveToParent", "MoveToChild", "MoveToFirst", "MoveToNext", "MoveToPrevious", "MoveToNextAttribute"}
 	for _, m := range methods {
-		fn := c.MethodOfPkg(p.Types, navT.Obj().Name(), m)
+		fn := c.MethodOfPkg(idrTypes, navT.Obj().Name(), m)
 		key := core.FuncKey(fn) + " model"
 		if fn == nil || fn.Blocks == nil {
 			c.Unresolved("R11d", "navigator method "+m, "not found")
@@ -513,7 +623,7 @@ func c11NavModel(c *core.Ctx) {
 		}
 	}
 	// MoveToRoot: cursor = root
-	if fn := c.MethodOfPkg(p.Types, navT.Obj().Name(), "MoveToRoot"); fn != nil && fn.Blocks != nil {
+	if fn := c.MethodOfPkg(idrTypes, navT.Obj().Name(), "MoveToRoot"); fn != nil && fn.Blocks != nil {
 		w := c11navBuild(1, 2)
 		it := it0
 		it.w, it.navCur, it.navRoot = w, 4, 0
